@@ -72,13 +72,14 @@ func canonicalStructSize(s Struct) ObjectSize {
 		return ObjectSize{}
 	}
 	var sz ObjectSize
-	// int32 will not overflow because max struct data size is 2^16 words.
-	for off := int32(s.size.DataSize &^ (wordSize - 1)); off >= 0; off -= int32(wordSize) {
-		if s.Uint64(DataOffset(off)) != 0 {
-			sz.DataSize = Size(off) + wordSize
-			break
-		}
+	// Find the last non-zero byte; the data section of a list member may
+	// be narrower than a word.
+	data := s.seg.slice(s.off, s.size.DataSize)
+	n := len(data)
+	for n > 0 && data[n-1] == 0 {
+		n--
 	}
+	sz.DataSize = Size(n).padToWord()
 	for i := int32(s.size.PointerCount) - 1; i >= 0; i-- {
 		if s.seg.readRawPointer(s.pointerAddress(uint16(i))) != 0 {
 			sz.PointerCount = uint16(i + 1)
